@@ -3,6 +3,7 @@ package keeper
 import (
 	"context"
 	"errors"
+	"strings"
 
 	layertypes "github.com/tellor-io/layer/types"
 	"github.com/tellor-io/layer/utils"
@@ -39,6 +40,11 @@ func (k msgServer) SubmitValue(ctx context.Context, msg *types.MsgSubmitValue) (
 	// store the value in its canonical spelling (no 0x prefix, lower case): validation strips the
 	// prefix, aggregation and the bridge snapshot encoder parse the stored string as plain hex
 	msg.Value = utils.Remove0xPrefix(msg.Value)
+	// a value with a second prefix ("0x0x12..") would pass the decodability check further down, which strips a prefix of
+	// its own, and would then be stored in a spelling that aggregation cannot parse at the end of the block
+	if strings.HasPrefix(msg.Value, "0x") {
+		return nil, errors.New("value has more than one 0x prefix")
+	}
 
 	isTokenBridgeDeposit, err := k.keeper.PreventBridgeWithdrawalReport(msg.QueryData)
 	if err != nil {
